@@ -2542,3 +2542,48 @@ REG["jnp.isnan"] = _ew1(lambda e: Poly())
 REG["jnp.isinf"] = _ew1(lambda e: Poly())
 REG["jnp.isfinite"] = _ew1(lambda e: Poly.const(1))
 REG["jnp.nan_to_num"] = _ew1(lambda e: e)
+
+
+@reg("jnp.split", "jnp.array_split")
+def _split(it, a, k, node):
+    t = _arr(a[0])
+    sec = a[1] if len(a) > 1 else k.get("indices_or_sections")
+    axis = _I()._static_int(k.get("axis", a[2] if len(a) > 2 else 0)) % t.ndim
+    d = t.shape[axis]
+    if is_sym(d):
+        raise Unsupported("split along a symbolic axis")
+    if isinstance(sec, (list, tuple, Tens)):
+        cuts = [_I()._static_int(x) for x in (sec.data if isinstance(sec, Tens) else sec)]
+    else:
+        n = _I()._static_int(sec)
+        if d % n != 0:
+            raise _I().RepoRaise("ValueError", node, it.cur_file(), "array split does not result in an equal division")
+        cuts = [d // n * i for i in range(1, n)]
+    bounds = [0] + cuts + [d]
+    out = []
+    for lo, hi in zip(bounds[:-1], bounds[1:]):
+        out.append(getitem(it, t, tuple([slice(None)] * axis + [slice(lo, hi)]), node))
+    return out
+
+
+_einsum_plain = REG["jnp.einsum"]
+
+
+@reg("jnp.einsum")
+def _einsum2(it, a, k, node):
+    spec = a[0].replace(" ", "") if isinstance(a[0], str) else None
+    ops = [_arr(x) for x in a[1:]]
+    if spec and "->" in spec and "..." not in spec:
+        lhs, out = spec.split("->")
+        ins = lhs.split(",")
+        # every operand carries the same subscripts (an elementwise product) and the contracted letters include
+        # symbolic axes: product, then the ordinary (possibly symbolic) sum over those axes
+        if len(set(ins)) == 1 and len(ins) == len(ops) and all(o.ndim == len(ins[0]) for o in ops) and len(set(ins[0])) == len(ins[0]):
+            letters = ins[0]
+            summed = [i for i, l in enumerate(letters) if l not in out]
+            if summed and any(is_sym(ops[0].shape[i]) for i in summed) and [l for l in letters if l in out] == list(out):
+                p = ops[0]
+                for o in ops[1:]:
+                    p = T.ewise(lambda u, v: u * v, p, o)
+                return T.reduce(p, tuple(summed), False, _sum_fold, SO.sym_sum, SO.partial_sum)
+    return _einsum_plain(it, a, k, node)
